@@ -36,16 +36,20 @@ class Read:
     arrays that had already been assigned for the current order when the read was
     evaluated (availability is judged at evaluation time, not when a work array
     holding the value is consumed)"""
-    __slots__ = ('arr', 'idx', 'node', 'asg', 'seq', 'loops')
+    __slots__ = ('arr', 'idx', 'node', 'asg', 'seq', 'loops', 'branch', 'cons')
     current_assigned = frozenset()
     current_seq = 0
     current_loops = ()
+    current_branch = ()
+    current_cons = ()
 
-    def __init__(self, arr, idx, node, asg=None, seq=None, loops=None):
+    def __init__(self, arr, idx, node, asg=None, seq=None, loops=None, branch=None, cons=None):
         self.arr, self.idx, self.node = arr, idx, node
         self.asg = Read.current_assigned if asg is None else asg
         self.seq = Read.current_seq if seq is None else seq
         self.loops = Read.current_loops if loops is None else loops
+        self.branch = Read.current_branch if branch is None else branch
+        self.cons = Read.current_cons if cons is None else cons
 
 
 class Val:
@@ -144,6 +148,8 @@ class KernelAnalysis:
         self.pending_o4 = []
         self.iter_stores = []
         self.seq = 0
+        self.branch = []        # stack of (if-node id, arm)
+        self.cons = []          # stack of constraints on loop variables: (uid, 'eq'|'ge'|'le', Aff)
         self.wlog = []      # writes: (array, ('idx', Aff) | ('fam', start, step, length), seq, loops, stmt)
         self.rlog = []      # reads : Read objects actually consumed by a store
         self._init_params(graded_params)
@@ -281,6 +287,8 @@ class KernelAnalysis:
         self.seq += 1
         Read.current_seq = self.seq
         Read.current_loops = tuple((c['var'], c['desc']) for c in self.order_ctx)
+        Read.current_branch = tuple(self.branch)
+        Read.current_cons = tuple(self.cons)
         if self._maybe_degree_unpack(st):
             return
         if isinstance(st, ast.Assign):
@@ -505,13 +513,23 @@ class KernelAnalysis:
         asg0 = [set(c['assigned']) for c in self.order_ctx]
         cmpv = self._cmp_refine(st.test)
         saved_r, saved_env = self.ranges, dict(self.aff_env)
+        ncons = len(self.cons)
         if eqv is not None:
             var, c = eqv
+            uid0 = list(self.aff_env[var].vars())[0]
+            self.cons.append((uid0, 'eq', Aff.const(c)))
             self.aff_env[var] = Aff.const(c)
         elif cmpv is not None:
             uid, blo, bhi, _, _ = cmpv
             self.ranges = _narrow(self.ranges, uid, blo, bhi)
+            if blo is not None:
+                self.cons.append((uid, 'ge', blo))
+            if bhi is not None:
+                self.cons.append((uid, 'le', bhi))
+        self.branch.append((id(st), 0))
         self.block(st.body)
+        self.branch.pop()
+        del self.cons[ncons:]
         self.ranges, self.aff_env = saved_r, dict(saved_env)
         temps1 = dict(self.temps)
         asg1 = [set(c['assigned']) for c in self.order_ctx]
@@ -521,7 +539,14 @@ class KernelAnalysis:
         if cmpv is not None:
             uid, _, _, elo, ehi = cmpv
             self.ranges = _narrow(self.ranges, uid, elo, ehi)
+            if elo is not None:
+                self.cons.append((uid, 'ge', elo))
+            if ehi is not None:
+                self.cons.append((uid, 'le', ehi))
+        self.branch.append((id(st), 1))
         self.block(st.orelse)
+        self.branch.pop()
+        del self.cons[ncons:]
         self.ranges, self.aff_env = saved_r, saved_env
         for c, a, a0 in zip(self.order_ctx, asg1, asg0):
             both = c['assigned'] & a
@@ -757,7 +782,7 @@ class KernelAnalysis:
                         newpv = self.new_pos(inner.length)
                         sub = inner.length - 1 - Aff.var(newpv)
                         w = inner.w.subs(pv, sub)
-                        reads = [Read(r.arr, r.idx.subs(pv, sub), r.node, r.asg, r.seq, r.loops) for r in inner.reads]
+                        reads = [Read(r.arr, r.idx.subs(pv, sub), r.node, r.asg, r.seq, r.loops, r.branch, r.cons) for r in inner.reads]
                         return Val('fam', w, reads, inner.factors, posvar=newpv, length=inner.length)
                     if s is not None and s.is_const and s.c == 1:
                         return inner
@@ -771,7 +796,7 @@ class KernelAnalysis:
                     ia = to_aff(a0, self.aff_env)
                     if ia is not None:
                         pv = inner.posvar
-                        reads = [Read(r.arr, r.idx.subs(pv, ia), r.node, r.asg, r.seq, r.loops) for r in inner.reads]
+                        reads = [Read(r.arr, r.idx.subs(pv, ia), r.node, r.asg, r.seq, r.loops, r.branch, r.cons) for r in inner.reads]
                         return Val('w', inner.w.subs(pv, ia), reads, inner.factors)
             return Val.bot('subscript of subscript: ' + norm(n), inner.reads)
         if nm in self.gvars:
@@ -842,7 +867,7 @@ class KernelAnalysis:
             return Val.bot((a.why if a.kind == 'bot' else b.why), reads)
         if a.kind == 'fam' and b.kind == 'fam':
             bw = b.w.subs(b.posvar, Aff.var(a.posvar))
-            breads = [Read(r.arr, r.idx.subs(b.posvar, Aff.var(a.posvar)), r.node, r.asg, r.seq, r.loops) for r in b.reads]
+            breads = [Read(r.arr, r.idx.subs(b.posvar, Aff.var(a.posvar)), r.node, r.asg, r.seq, r.loops, r.branch, r.cons) for r in b.reads]
             if a.w != bw:
                 self.obligations += 1
                 self.issue('O3', 'VIOLATION', node, 'sum of two coefficient families with different weights: %s vs %s in `%s`'
@@ -885,7 +910,7 @@ class KernelAnalysis:
         if a.kind == 'fam' and b.kind == 'fam':
             # element-wise product pairs equal positions
             bw = b.w.subs(b.posvar, Aff.var(a.posvar))
-            breads = [Read(r.arr, r.idx.subs(b.posvar, Aff.var(a.posvar)), r.node, r.asg, r.seq, r.loops) for r in b.reads]
+            breads = [Read(r.arr, r.idx.subs(b.posvar, Aff.var(a.posvar)), r.node, r.asg, r.seq, r.loops, r.branch, r.cons) for r in b.reads]
             if a.length is not None and b.length is not None and a.length != b.length:
                 self.obligations += 1
                 w = find_witness(lambda v: (a.length - b.length).eval(v) != 0 and a.length.eval(v) > 1 and b.length.eval(v) > 1,
@@ -1432,7 +1457,7 @@ class KernelAnalysis:
                 self.samples.append('%s: `%s`  target weight %s = rhs weight %s; reads %s'
                                     % (fn, norm(st)[:70], W, rhs_w, sorted(set('%s[%s]' % (r.arr, r.idx) for r in v.reads))[:6]))
         self.iter_stores.append((g.name, list(v.reads), e, isinstance(aug, ast.Mult)))
-        self.wlog.append((g.name, ('idx', e), self.seq, tuple((c['var'], c['desc']) for c in self.order_ctx), st))
+        self.wlog.append((g.name, ('idx', e), self.seq, tuple((c['var'], c['desc']) for c in self.order_ctx), st, tuple(self.branch), tuple(self.cons)))
         self.rlog.extend(v.reads)
         self.store_log = getattr(self, 'store_log', [])
         self.store_log.append((g.name, e, self._all_ranges([e])))
@@ -1448,7 +1473,7 @@ class KernelAnalysis:
     def _store_family(self, g, start, step, length, v, st, aug, target):
         """whole-array / slice store: position-wise weights must agree"""
         fn = self.fi.qualname
-        self.wlog.append((g.name, ('fam', start, step, length), self.seq, tuple((c['var'], c['desc']) for c in self.order_ctx), st))
+        self.wlog.append((g.name, ('fam', start, step, length), self.seq, tuple((c['var'], c['desc']) for c in self.order_ctx), st, tuple(self.branch), tuple(self.cons)))
         self.rlog.extend(v.reads)
         if v.kind == 'bot':
             self.unk(st, 'right-hand side not understood (%s): %s' % (v.why, norm(st)[:90]))
@@ -1937,10 +1962,14 @@ def alias_hazards(ka, W, R, dmax=5):
     writes = [w for w in ka.wlog if w[0] == W]
     reads = [r for r in ka.rlog if r.arr == R]
     seen = set()
-    for (wa, wkind, wseq, wloops, wst) in writes:
+    for (wa, wkind, wseq, wloops, wst, wbranch, wcons) in writes:
         for r in reads:
             key = (id(wst), id(r.node))
             if key in seen:
+                continue
+            # events in different arms of one if/elif never execute together
+            wb = dict(wbranch)
+            if any(k in wb and wb[k] != arm for k, arm in r.branch):
                 continue
             # variables: write side uses the original uids, read side primed copies for loop variables
             rl = r.loops
@@ -1956,14 +1985,29 @@ def alias_hazards(ka, W, R, dmax=5):
             w_vars = [u for u, _ in wloops]
             r_vars = [u for u, _ in rl]
             extra = sorted(v for v in r.idx.vars() if v not in r_vars and v in range_of)
-            wit = _search_hazard(wkind, wseq, wloops, ridx, r.seq, rl, common, range_of, extra, dmax)
+            wit = _search_hazard(wkind, wseq, wloops, ridx, r.seq, rl, common, range_of, extra, dmax, wcons, r.cons)
             if wit is not None:
                 seen.add(key)
                 out.append((wst, r.node, wit))
     return out
 
 
-def _search_hazard(wkind, wseq, wloops, ridx, rseq, rloops, common, range_of, extra, dmax):
+def _cons_ok(cons, val, primed):
+    for uid, op, a in cons:
+        k = uid + ("'" if primed else '')
+        if k not in val:
+            continue
+        try:
+            c = _ev(a, val, primed=primed)
+        except KeyError:
+            continue
+        v = val[k]
+        if (op == 'eq' and v != c) or (op == 'ge' and v < c) or (op == 'le' and v > c):
+            return False
+    return True
+
+
+def _search_hazard(wkind, wseq, wloops, ridx, rseq, rloops, common, range_of, extra, dmax, wcons=(), rcons=()):
     import math
     for D in range(1, dmax + 1):
         base = {'#D': D}
@@ -1995,7 +2039,11 @@ def _search_hazard(wkind, wseq, wloops, ridx, rseq, rloops, common, range_of, ex
         wv = [u for u, _ in wloops]
         rv = [u for u, _ in rloops]
         for val_w in enum(wv, False, dict(base)):
+            if not _cons_ok(wcons, val_w, False):
+                continue
             for val in enum(rv, True, dict(val_w)):
+                if not _cons_ok(rcons, val, True):
+                    continue
                 # execution order: read after write?
                 after = None
                 for k in range(common):
